@@ -11,29 +11,28 @@ import (
 
 // VerifH_PreconditionsKernel: a conditional write is admitted (checkPreconditions == nil) if and
 // only if every precondition holds on the index state it is evaluated on. State: 2 keys with a
-// symbolic latest version (0 = absent/deleted); `n` preconditions of symbolic kind, key, tx id.
+// symbolic latest version (tx id, 0 = never written) that is live, logically deleted or expired; `n` preconditions of symbolic kind, key, tx id.
 func VerifH_PreconditionsKernel() {
 	n := verifrt.Param("n")
-	var latest [3]uint64 // key bytes 1,2 ; index 0 unused
+	var latest [3]uint64 // key bytes 1,2 ; index 0 unused: tx id of the latest version (0: never written)
+	var kind [3]byte      // 0 live, 1 logically deleted, 2 expired
 	latest[1], latest[2] = verifrt.U64("v1"), verifrt.U64("v2")
-	verifrt.Assume(latest[1] <= 5 && latest[2] <= 5)
-	lookup := func(key []byte) uint64 {
+	kind[1], kind[2] = verifrt.Byte("kind1"), verifrt.Byte("kind2")
+	verifrt.Assume(latest[1] <= 5 && latest[2] <= 5 && kind[1] <= 2 && kind[2] <= 2)
+	lookup := func(key []byte) (uint64, byte) {
 		if len(key) == 1 && (key[0] == 1 || key[0] == 2) {
-			return latest[key[0]]
+			return latest[key[0]], kind[key[0]]
 		}
-		return 0
+		return 0, 0
 	}
-	verifrt.Stub("(*embedded/store.ImmuStore).Get", func(s *ImmuStore, ctx context.Context, key []byte) (ValueRef, error) {
-		if t := lookup(key); t != 0 {
-			return &valueRef{tx: t}, nil
-		}
-		return nil, ErrKeyNotFound
-	})
+	live := func(key []byte) bool {
+		t, k := lookup(key)
+		return t != 0 && k == 0
+	}
+	// the index read the preconditions go through; (*ImmuStore).Get is the real one
 	verifrt.Stub("(*embedded/store.ImmuStore).GetWithFilters", func(s *ImmuStore, ctx context.Context, key []byte, filters ...FilterFn) (ValueRef, error) {
-		if t := lookup(key); t != 0 {
-			return &valueRef{tx: t}, nil
-		}
-		return nil, ErrKeyNotFound
+		t, k := lookup(key)
+		return verifVersionRef(t, k, filters)
 	})
 	st := &ImmuStore{maxKeyLen: 4}
 	tx := &OngoingTx{st: st, mode: WriteOnlyTx}
@@ -48,11 +47,12 @@ func VerifH_PreconditionsKernel() {
 		var holds bool
 		switch kind {
 		case 0:
-			c, holds = &PreconditionKeyMustExist{Key: []byte{k}}, lookup([]byte{k}) != 0
+			c, holds = &PreconditionKeyMustExist{Key: []byte{k}}, live([]byte{k})
 		case 1:
-			c, holds = &PreconditionKeyMustNotExist{Key: []byte{k}}, lookup([]byte{k}) == 0
+			c, holds = &PreconditionKeyMustNotExist{Key: []byte{k}}, !live([]byte{k})
 		default:
-			c, holds = &PreconditionKeyNotModifiedAfterTx{Key: []byte{k}, TxID: txid}, lookup([]byte{k}) <= txid
+			lt, _ := lookup([]byte{k})
+			c, holds = &PreconditionKeyNotModifiedAfterTx{Key: []byte{k}, TxID: txid}, lt <= txid
 		}
 		verifrt.Assert(c.Validate(st) == nil, "well-formed precondition validates")
 		verifrt.Assert(tx.AddPrecondition(c) == nil, "precondition accepted")
